@@ -111,9 +111,21 @@ func H_C12_jobsAcquire(nonblocking int) {
 		}
 	})
 	before := j.in[target]
+	// does Release wake one waiter (Signal) or all of them (Broadcast)?
+	scratch := NewMaxJobsSemaphore(1)
+	b0 := verifCondBroadcasts()
+	scratch.Release(m)
+	wakesOne := verifCondBroadcasts() == b0
+	sig0 := verifCondSignals()
 	ok := j.sem.Acquire(m, nonblocking != 0)
 	verifCover("jobs acquire returned")
 	j.inv("jobsAcquire")
+	if n := verifCondSignals(); n >= 0 && waits > 0 && wakesOne {
+		// Release wakes exactly one waiter: a caller that consumed the wake-up
+		// and then gives up, or succeeds, must pass the wake-up on: otherwise a
+		// free slot can coexist with waiting jobs for ever
+		verifAssert(n > sig0, "jobsAcquire: a woken caller signals the condition variable again before returning (no lost wake-up) (ghost)")
+	}
 	if ok {
 		verifAssert(j.member(target), "Acquire true => the job holds the semaphore")
 	} else if waits == 0 {
